@@ -279,6 +279,12 @@ def cquery(s):
         return f"(QRolling {cq(s['l'])} {cq(s['rr'])} {coq_opt(s.get('lo'))} {coq_opt(s.get('hi'))})"
     if q == "describe":
         return f"(QDescribe {coq_opt(s.get('lo'))} {coq_opt(s.get('hi'))} {clist(cq(x) for x in s['ps'])})"
+    if q == "arrsample":
+        return f"(QArrSample {clist(str(r) for r in s['others'])} {clist(cq(x) for x in s['xs'])})"
+    if q == "arrlimit":
+        return f"(QArrLimit {clist(str(r) for r in s['others'])} {_LS[s['side']]} {clist(cq(x) for x in s['xs'])})"
+    if q in ("arrcov", "arrcorr"):
+        return f"({'QArrCov' if q == 'arrcov' else 'QArrCorr'} {clist(str(r) for r in s['others'])} {coq_opt(s.get('lo'))} {coq_opt(s.get('hi'))})"
     raise ValueError(q)
 
 
@@ -365,6 +371,35 @@ def has_inf(o):
     return '"inf"' in s or '"-inf"' in s
 
 
+def with_array_queries(src, seen):
+    """the program and observations handed to the Coq model: the expanded per-member statements (exactly what the oracle
+    sees), and after each collection-level table / matrix call one extra query that evaluates Model/Arrays.v's own
+    definition of that call (arr_sample, arr_limit, arr_cov, arr_corr) on the same registers, observed as the whole
+    table of the implementation's entries. The extra query is added only when every entry was observed as a value."""
+    mprog, mseen, pos = [], [], 0
+    for s in src:
+        ex = expand([s])
+        obs = seen[pos:pos + len(ex)]
+        pos += len(ex)
+        mprog += ex
+        mseen += obs
+        k = s["s"]
+        if len(obs) != len(ex) or not ex:
+            continue
+        if k == "arrtable" and all(o is not None and o.get("t") == "vals" for o in obs):
+            regs = s["regs"]
+            q = {"s": "query", "r": regs[0], "others": regs[1:], "xs": s["xs"]}
+            q.update({"q": "arrsample"} if s["kind"] == "sample" else {"q": "arrlimit", "side": s["side"]})
+            mprog.append(q)
+            mseen.append({"t": "vals", "vals": [v for o in obs for v in o["vals"]]})
+        elif k == "arrcov" and all(o is not None and o.get("t") == "val" for o in obs):
+            regs = s["regs"]
+            mprog.append({"s": "query", "r": regs[0], "others": regs[1:], "q": "arr" + s["kind"], "lo": s["lo"], "hi": s["hi"]})
+            mseen.append({"t": "vals", "vals": [o["val"] for o in obs]})
+    mseen += seen[pos:]
+    return mprog, mseen
+
+
 def ccase(cid, mode, prog, seen):
     return ("  Case %d %s\n    [ %s ]\n    [ %s ]" % (
         cid, "Tol" if mode == "tol" else "Exact",
@@ -376,7 +411,7 @@ def shard_text(cases):
     """cases: list of (cid, mode, prog, seen)"""
     body = ";\n".join(ccase(*c) for c in cases)
     return ("Require Import SC.Corr.Check SC.Model.Prog SC.Model.Repr SC.Model.Masking SC.Model.Sampling "
-            "SC.Model.Stats SC.Model.Slicing SC.Base.Val.\n"
+            "SC.Model.Stats SC.Model.Slicing SC.Model.Arrays SC.Base.Val.\n"
             "From Coq Require Import List ZArith.\nImport ListNotations.\n"
             "Set Printing Width 1000000.\nSet Printing Depth 100000.\n"
             "Definition cases : list case := [\n" + body + "\n].\n"
